@@ -1,6 +1,7 @@
 package c16
 
 import (
+	"fmt"
 	"math/rand/v2"
 
 	"verif/internal/fw"
@@ -61,6 +62,12 @@ func buildUniverse() []Obj {
 	add(tab(), tab(), tab(fix(1), str("a")), tab(fix(1), str("a")), tab(fix(1), str("A")), tab(fix(1), str("a"), sym("x"), fix(2)),
 		tab(sym("x"), fix(2), fix(1), str("a")), tab(str("k"), l12), tab(str("k"), list(fix(1), num("double", "2.0"))), tab(str("k"), list(fix(1), fix(3))),
 		tab(str("K"), l12), tab(chr("c"), chr("a")), tab(chr("c"), chr("A")))
+	// 2-dimensional arrays and instances (equalp descends into them)
+	add(arr("2x2", fix(1), fix(2), fix(3), fix(4)), arr("2x2", fix(1), fix(2), fix(3), fix(4)), arr("2x2", fix(1), fix(2), fix(3), num("double", "4.0")),
+		arr("2x2", fix(1), fix(2), fix(3), fix(5)), arr("1x4", fix(1), fix(2), fix(3), fix(4)), arr("4x1", fix(1), fix(2), fix(3), fix(4)),
+		arr("1x2", str("a"), chr("b")), arr("1x2", str("A"), chr("B")), vec(fix(1), fix(2), fix(3), fix(4)))
+	add(inst("c16-k", str("a")), inst("c16-k", str("a")), inst("c16-k", str("A")), inst("c16-k", str("b")), inst("c16-k2", str("a")),
+		inst("c16-k", fix(1)), inst("c16-k", num("double", "1.0")), inst("c16-k", l12), inst("c16-k", l12), inst("c16-k", list(fix(1), fix(3))))
 	// the lossy block: values that differ but collide once converted to a
 	// float (kept small: exact comparison with floats is C05's concern; here
 	// it is only probed for the transitivity of eql/equal/equalp)
@@ -145,6 +152,19 @@ func randObj(r *rand.Rand, depth int) Obj {
 	switch {
 	case k < 7:
 		return list(kids...)
+	case k < 8 && r.IntN(3) == 0:
+		return inst(fw.Pick(r, []string{"c16-k", "c16-k", "c16-k2"}), kids[0])
+	case k < 8 && r.IntN(3) == 0:
+		if n == 3 {
+			kids = append(kids, randAtom(r))
+		}
+		switch d := r.IntN(3); {
+		case d == 0 && len(kids) == 4:
+			return arr("2x2", kids...)
+		case d == 1:
+			return arr(fmt.Sprintf("%dx1", len(kids)), kids...)
+		}
+		return arr(fmt.Sprintf("1x%d", len(kids)), kids...)
 	case k < 8 && r.IntN(2) == 0:
 		keys := []Obj{fix(1), str("k"), sym("x"), chr("c")}
 		var c []Obj
